@@ -34,12 +34,22 @@ def lcs(a, b):
 
 
 def _check(pair):
-    a, b = pair
+    a, b = pair[0], pair[1]
     import graphtage
     from graphtage import edits as E
     fails = []
     try:
-        ed = graphtage.string_edit_distance(a, b)
+        if len(pair) > 2 and pair[2] == 'node':
+            # the route diff() takes: StringNode.edits -> StringEdit -> its edit distance
+            se = graphtage.StringNode(a).edits(graphtage.StringNode(b))
+            if not isinstance(se, graphtage.StringEdit):
+                if a != b and not (len(a) == 1 and len(b) == 1):
+                    fails.append({'what': f"StringNode({a!r}).edits(StringNode({b!r})) is a {type(se).__name__}, not a StringEdit",
+                                  'class': 'c11-not-a-string-edit'})
+                return _tag11(fails, a, b)
+            ed = se.edit_distance
+        else:
+            ed = graphtage.string_edit_distance(a, b)
         n = 0
         while ed.tighten_bounds():
             n += 1
@@ -72,6 +82,10 @@ def _check(pair):
                           'class': 'c11-not-minimal'})
     except Exception as ex:
         fails.append({'what': f"{type(ex).__name__}: {ex}", 'class': f'c11-exception:{type(ex).__name__}'})
+    return _tag11(fails, a, b)
+
+
+def _tag11(fails, a, b):
     for f in fails:
         ab = lambda x: repr(x) if len(x) <= 60 else f"<{len(x)} chars: {x[:12]!r}...{x[-12:]!r}>"
         f['what'] += f" [{ab(a)} -> {ab(b)}]"
@@ -107,6 +121,9 @@ def bounded(tier, seed, repo_root):
     wide = 'a\u20ac\u03b2'
     sw = [''.join(p) for n in range(0, (4 if tier == 'quick' else 5) + 1) for p in itertools.product(wide, repeat=n)]
     pairs = [(a, b) for a in s2 for b in s2] + [(a, b) for a in s3 for b in s3] + [(a, b) for a in sw for b in sw]
+    # the same through StringNode.edits (the route diff() takes) on a sample
+    rnd0 = random.Random(seed + 1)
+    pairs += [p + ('node',) for p in rnd0.sample(pairs, min(len(pairs), 4000 if tier == 'quick' else 40000))]
     n_ex = len(pairs)
     rnd = random.Random(seed)
     for _ in range(1500 if tier == 'quick' else 15000):
@@ -129,7 +146,7 @@ def bounded(tier, seed, repo_root):
     return [{
         'name': 'C11.lcs-reference', 'bound': f"all pairs of strings over {{a,b}} up to length {L2} and over {{a,b,c}} up to length {L3} and over {{a, U+20AC, U+03B2}} (non-Latin-1) up to length {4 if tier == 'quick' else 5} "
         f"({n_ex} pairs, exhaustive) + {len(pairs) - n_ex} seeded longer pairs with repeats and shared prefixes/suffixes over ASCII, Greek, CJK, astral, combining and control characters + 1 pair differing by more than 2**16 characters",
-        'evaluations': len(pairs), 'distinct_nontrivial': len({p for p in pairs if p[0] != p[1]}), 'exhaustive': True,
+        'evaluations': len(pairs), 'distinct_nontrivial': len({p[:2] for p in pairs if p[0] != p[1]}), 'exhaustive': True,
         'rule': 'pair of strings -> string_edit_distance refined to fix-point: kept characters == LCS length and removed+inserted '
                 '== n+m-2*LCS; non-trivial = the strings differ',
         'failures': fails, 'samples': [list(p) for p in pairs[9000:9003]],
